@@ -111,4 +111,16 @@
 // (first 2 of 4 -> early repaint added to the generated prefix -> 4 of 4); ingestBlock dropping one element per block;
 // dvid.NewExtents3dFromStrings max corner off by one (elements/blocks views); GetROISynapses span end off by one; labelsz
 // modifyElements ignoring Del; GetTopElementType returning n-1 entries; elementToIndexType counting Gap as PreSyn.
+//
+// Follow-up round.  Findings 1, 2, 3 and 5 have been fixed in /repo (their signatures are no longer listed, so the shapes run
+// unsteered again: classes tag-drop-and-add-in-one-post, move/same-body, overwrite/kind-change-on-body,
+// reload/non-synaptic-kinds); 4, 6 and 7 are listed as known.  A seeded change was missed by the first version of the
+// generator: (*Elements).deleteRel cutting only the FIRST relationship that points to the deleted element, which needs a partner
+// in another block holding >=2 relationships to it.  The generator now gives a related pair 1-3 relationships of different
+// Rel kinds per direction (pelem.RelN), delete/move operands can prefer such elements (aop.Multi), and classes
+// rels/multi-relationship-pair[/cross-block|/same-block], rels/multi-partner, delete|move/multi-relationship-pair[/cross-block],
+// delete|move/multi-partner are recorded.  With that the seeded deleteRel change is caught by 8 of 8 shards x 40 cases
+// (C13/rels/dangling-reference/after-delete/with-partner, VERIF_REPO=<scratch> ./check C13 prints VIOLATION), and the analogous
+// change in (*Elements).move (redirect only the first relationship) by 4 of 4 (C13/rels/dangling-reference/after-move/...).
+// Unchanged tree: silent at VERIF_SEED=1,2,3 (quick 29-35 s) and on 12 seeds x 150 cases.
 package c13
